@@ -182,6 +182,8 @@ func stringer(s node.Selector) string {
 		v := m[k]
 		if strings.Contains(v, "no nodes available") {
 			v = "N"
+		} else if strings.Contains(v, "unknown shard") {
+			v = "U"
 		}
 		parts = append(parts, k+">"+v)
 	}
@@ -344,6 +346,9 @@ func handle(f []string) string {
 		tvs := make([]*modelv1.TagValue, 0, len(f)-4)
 		for _, t := range f[4:] {
 			tvs = append(tvs, parseTV(t))
+		}
+		if k > len(tvs) {
+			return "bad-op"
 		}
 		// the key that Locate hashes, recomputed through the exported pieces, for the model to compare
 		evs := append(pbv1.EntityValues{pbv1.EntityStrValue(subject)}, tvs...)
